@@ -596,8 +596,8 @@ int main(int argc, char **argv)
 		uint64_t seed = strtoull(argOr(argc, argv, "--seed", "1"), nullptr, 10);
 		bool thorough = std::string(argOr(argc, argv, "--tier", "quick")) == "thorough";
 		int len = atoi(argOr(argc, argv, "--len", thorough ? "5" : "4"));
-		int nRandom = atoi(argOr(argc, argv, "--random", thorough ? "40000" : "4000"));
-		int jobs = atoi(argOr(argc, argv, "--jobs", "8"));
+		int nRandom = atoi(argOr(argc, argv, "--random", thorough ? "24000" : "4000"));
+		int jobs = atoi(argOr(argc, argv, "--jobs", thorough ? "12" : "8"));
 		if (jobs < 1) jobs = 1;
 		if (mkdir(base.c_str(), 0700) != 0 && errno != EEXIST) {
 			std::string cmd = "mkdir -p '" + base + "'";
